@@ -44,7 +44,7 @@ CHECKS.update({
    design_ref="DESIGN.md §3 C14", note="Only /key queries; BaseApp-level height defaulting is exercised by the chain harness; bounded by the key catalogue and N<=2, V<=4."),
  "C15": dict(engine="opseq", category="model_checking",
    technique="exhaustive enumeration of operation programs on stacks of real cachekv wrappers against an overlay-of-maps model",
-   text="Every contract-respecting program of L operations (Get/Has/Set/Delete/drained iterations over 6 ranges x 2 directions/Write/CacheWrap/child Write/discard/open-step-close iterators with writes in between) on up to 3 nested cachekv wrappers over MemDB, IAVL and prefix parents; every return value, iteration sequence, parent content and final view compared with the model.",
+   text="Every contract-respecting program of L operations (Get/Has/Set/Delete/drained iterations over 6 ranges x 2 directions/Write/CacheWrap/child Write/discard/open-step-close iterators with writes in between) on up to 3 nested cachekv wrappers over MemDB, IAVL and prefix parents; every return value, iteration sequence, parent content and final view compared with the model; plus every program of the shape reads / own writes / writes to the parent from elsewhere (directly or through a sibling wrapper) / own writes / Write over two keys, plain and nested parents, judged on the parent's content after Write.",
    design_ref="DESIGN.md §3 C15", note="Sequential programs bounded by L and the 4-key alphabet, no state merging; the concurrent clause is decided by cmd/vsched: every interleaving of 24 scenarios (2-3 goroutines, 1-2 operations each on colliding keys) of the instrumented cachekv store up to 2 (quick) / 3 (thorough) preemptions, histories checked for linearizability with porcupine, plus a free-running -race pass of the same bodies."),
  "C16": dict(engine="opseq", category="model_checking",
    technique="exhaustive enumeration of operation programs through prefix/gas/trace wrappers and all their stackings against a map model, an independent cost table and the decoded trace",
